@@ -91,7 +91,9 @@ func runRules(c *Ctx, rs []*Rule) (all []*Ob, perRule map[string]int) {
 	for _, r := range rs {
 		l := r.Run(c)
 		perRule[r.ID] = len(l)
-		if len(l) < r.Floor {
+		if len(l) < r.Floor && *flagDump && !*flagJSON {
+			fmt.Printf("# WARNING rule %s matched %d sites, below its floor %d\n", r.ID, len(l), r.Floor)
+		} else if len(l) < r.Floor {
 			broken("rule %s matched %d sites, below its floor %d (config %s): anchors lost, a vacuous pass is not a pass",
 				r.ID, len(l), r.Floor, c.Config.Name)
 		}
